@@ -361,8 +361,9 @@ def rule_fixpoint(ctx, rule='C08.FIXPOINT'):
         mv = norm(call.args[0])
         # exits: only when nothing is left or a pass made no progress (size unchanged)
         conj = [norm(x) for x in pr.conjuncts(w.test)]
-        progress = mv in conj and any(f'len({mv})' in c and '!=' in c for c in conj)
-        if not progress and mv in conj:
+        nonempty = mv in conj or f'len({mv})' in conj
+        progress = nonempty and any(f'len({mv})' in c and '!=' in c for c in conj)
+        if not progress and nonempty:
             # the no-progress exit spelt as a break:  while tx_map: n = len(tx_map); <call>; if len(tx_map) == n: break
             brks = [b_ for b_ in walk_own(w) if isinstance(b_, ast.Break)]
             if len(brks) == 1:
